@@ -20,8 +20,7 @@ func libXZ(in []byte, cfg xz.ReaderConfig) (out []byte, err error) {
 	if err != nil {
 		return nil, fmt.Errorf("open: %w", err)
 	}
-	out, err = io.ReadAll(r)
-	return out, err
+	return readVaried(r, in, uint64(cfg.DictCap))
 }
 
 func libLZMA(in []byte) (out []byte, err error) {
@@ -34,7 +33,7 @@ func libLZMA(in []byte) (out []byte, err error) {
 	if err != nil {
 		return nil, fmt.Errorf("open: %w", err)
 	}
-	return io.ReadAll(r)
+	return readVaried(r, in, 1)
 }
 
 func libLZMA2(in []byte, dict int) (out []byte, err error) {
@@ -47,5 +46,48 @@ func libLZMA2(in []byte, dict int) (out []byte, err error) {
 	if err != nil {
 		return nil, fmt.Errorf("open: %w", err)
 	}
-	return io.ReadAll(r)
+	return readVaried(r, in, uint64(dict)+2)
+}
+
+// readVaried reads r to the end like io.ReadAll, but with a schedule of buffer lengths that is a
+// function of the stream bytes and salt: half of the streams are read exactly like io.ReadAll,
+// the others one byte at a time (short streams), with small or medium random lengths, or with
+// one large buffer.  The decoded result must not depend on it, so callers need not care.
+func readVaried(r io.Reader, in []byte, salt uint64) ([]byte, error) {
+	h := salt*0x9e3779b97f4a7c15 + uint64(len(in))
+	for i := 0; i < len(in); i += 1 + len(in)/64 {
+		h = (h ^ uint64(in[i])) * 0x100000001b3
+	}
+	mode := (h >> 33) % 8
+	if mode < 4 || (mode == 4 && len(in) > 8192) {
+		return io.ReadAll(r)
+	}
+	var out []byte
+	x := h | 1
+	for {
+		x ^= x << 13
+		x ^= x >> 7
+		x ^= x << 17
+		l := 1
+		switch mode {
+		case 5:
+			l = 1 + int(x%64)
+		case 6:
+			l = 1 + int(x%5000)
+		case 7:
+			l = 1 << 20
+		}
+		p := make([]byte, l)
+		n, err := r.Read(p)
+		if n < 0 || n > l {
+			return out, fmt.Errorf("Read with a buffer of %d bytes returned n=%d", l, n)
+		}
+		out = append(out, p[:n]...)
+		if err == io.EOF {
+			return out, nil
+		}
+		if err != nil {
+			return out, err
+		}
+	}
 }
